@@ -23,7 +23,8 @@ Formalisation (definitions in `Model/Adapter.lean`).
   of all its tokens `Forest.allToks`, `expToks_sublist`; all of them if nothing is clipped,
   `expToks_noclip`).
 * `attrsWF G` (decidable, evaluated for every explored grammar by the oracle `c23-check`): the
-  attribute discipline canonicalisation establishes; `startIsolated G` (decidable): the start symbol
+  attribute discipline canonicalisation establishes (that it does is not proved:
+  `CanonEstablishesAttrsWF`, `canon_establishes_attrsWF_partial`); `startIsolated G` (decidable): the start symbol
   is on no right-hand side (possibly after LALR augmentation).
 
 The theorems hold for LL(k) and LALR(1) adapters alike (`G.ll`); for LL(k) they are also stated for
@@ -252,6 +253,37 @@ theorem ll_ast_flatten_eq_tokens (T : LLTables) (G : AGrammar) (o : Opts) (fuel 
   · have := flatten_spec ha _ _ hw
     rw [hspec] at this
     simpa using this
+
+/-! ## Where the attribute discipline comes from
+
+`attrsWF` is what the canonicalisation steps of `transformation/canonicalization.rs` establish
+(`extract_options`: `Option` symbol + `OptionalSome`/`OptionalNone` pair; `eliminate_single_rep`:
+`RepetitionAnchor` symbol + `AddToCollection`/`CollectionStart` pair, recursive occurrence last for
+LL(k) and first for LALR(1)) and what left factoring and LALR augmentation keep. That is **not
+proved** here; the oracle `c23-check` evaluates `attrsWF` on the expanded grammar of the REAL
+pipeline for every explored grammar. The statement for the canonicalisation model of C09: -/
+
+/-- Full statement (open): on grammars as written (no attributes but `^` on non-terminals) whose
+    start symbol is defined, the canonicalisation model `canon` produces a grammar that satisfies
+    the attribute discipline, for both grammar types. -/
+def CanonEstablishesAttrsWF : Prop :=
+  ∀ (ty : GType) (fuel : Nat) (E : List EProd) (B : List RuleN) (st : Name),
+    canon ty fuel E = .ok B → asWritten E = true → st ∈ E.map (·.lhs) →
+    attrsWF (ofRules (ty == .ll) st (E.map (·.lhs)) B) = true
+
+/-- `S: "5" { "6" [ N^ ] } ( "7" | N ); N: "8";` -/
+def canonExE : List EProd :=
+  [⟨"S".toList, [⟨[.t 5, .rep [[.t 6, .opt [[.n "N".toList .clipped]]]],
+      .group [[.t 7], [.n "N".toList .none]]], .none⟩]⟩,
+   ⟨"N".toList, [⟨[.t 8], .none⟩]⟩]
+
+/-- The proved part: the instance of `CanonEstablishesAttrsWF` for `canonExE`, LL(k) and LALR(1). -/
+theorem canon_establishes_attrsWF_partial (ty : GType) :
+    ∃ B, canon ty 100 canonExE = .ok B ∧ asWritten canonExE = true ∧
+      attrsWF (ofRules (ty == .ll) "S".toList (canonExE.map (·.lhs)) B) = true := by
+  cases ty
+  · exact ⟨_, rfl, by decide, by decide⟩
+  · exact ⟨_, rfl, by decide, by decide⟩
 
 /-! ## Non-vacuity: `S: A^ "a" { "b" [ "c"^ ] B } [ "d" ]; A: "x"; B: "y" | "z" A;` (the expanded
 grammar and the trace are those of the real pipeline, see `harness/src/c23.rs`), input
